@@ -6,7 +6,8 @@ then : VERIF_TRACE=out.ndjson VERIF_REJECTS=rej.ndjson tlc -config UniqTrace.cfg
 The first three events are left intact (must be accepted); then come, in this order:
   count+1 on an output record (count), one unit of weight moved inside a merged_k map (merged), one output record
   dropped (class-lost), one duplicated (duplicate-key), a demerged value renamed (demerge-value), the reference of a
-  law event altered (law-broken).
+  law event altered (law-broken), one unit of weight moved inside a merged_k:w map of a run with -m k:w (wmerged), one
+  unit of weight removed from a merged_k:w map given to a second pass, i.e. from an INPUT record (wmerged).
 """
 import copy
 import json
@@ -30,6 +31,21 @@ if d:
 l = next((x for x in ev if x["op"] == "law"), None)
 if l:
     e = copy.deepcopy(l); e["ref"][0][2] += 1; out.append(e)
+w = next((x for x in ev if x.get("wmerge") == 1 and x["op"] == "uniq" and any(sum(o[4]) > 0 for o in x["out"])), None)
+if w:
+    e = copy.deepcopy(w)
+    for o in e["out"]:
+        nz = [i for i, x in enumerate(o[4]) if x > 0]
+        if nz:
+            o[4][nz[0]] -= 1; o[4][(nz[0] + 1) % len(o[4])] += 1
+            break
+    out.append(e)
+p2 = next((x for x in ev if x["op"] == "pass2" and any(r[7] == "map" and sum(r[8]) > 0 for r in x["recs"])), None)
+if p2:
+    e = copy.deepcopy(p2)
+    r = next(r for r in e["recs"] if r[7] == "map" and sum(r[8]) > 0)
+    r[8][next(i for i, x in enumerate(r[8]) if x > 0)] -= 1
+    out.append(e)
 with open(sys.argv[2], "w") as f:
     for e in out:
         f.write(json.dumps(e, separators=(",", ":")) + "\n")
